@@ -60,8 +60,9 @@ class _Frame:
 
 
 class CFG:
-    def __init__(self, fn: ast.AST, name: str = ""):
+    def __init__(self, fn: ast.AST, name: str = "", raises=None):
         self.fn = fn
+        self._raises = raises  # optional oracle: ast node -> bool ("may raise"); default is the syntactic over-approximation
         self.name = name or getattr(fn, "name", "<fn>")
         self.nodes: list[Node] = []
         self.entry = self._new("entry")
@@ -92,7 +93,10 @@ class CFG:
             n.awaits = contains_await(probe) or (kind == "for" and isinstance(node, ast.AsyncFor)) or (
                 kind == "with_enter" and isinstance(node, ast.AsyncWith)
             )
-            n.may_raise = expr_may_raise(probe) or kind in ("for", "with_enter", "case")
+            if self._raises is not None:
+                n.may_raise = bool(self._raises(probe)) or n.awaits
+            else:
+                n.may_raise = expr_may_raise(probe) or kind in ("for", "with_enter", "case")
         self.nodes.append(n)
         return n
 
@@ -559,5 +563,5 @@ class CFG:
         return "\n".join(f"{n!r} -> {n.succ}" for n in self.nodes)
 
 
-def build(fn: ast.AST, name: str = "") -> CFG:
-    return CFG(fn, name)
+def build(fn: ast.AST, name: str = "", raises=None) -> CFG:
+    return CFG(fn, name, raises)
